@@ -49,7 +49,7 @@ def check_guards(chk, mi, fn, qual, reqs):
             name = exc.split("(")[0]
             if name == "NotImplementedError":
                 continue
-            if name == "TypeError" and p.conds and all(a.endswith(" is None") or a.startswith("isinstance(") for a, _ in atoms(p.conds[-1][0], p.conds[-1][1])):
+            if name == "TypeError" and p.conds and all(a.endswith(" is None") or (a.startswith("isinstance(") and a.endswith(", str)")) for a, _ in atoms(p.conds[-1][0], p.conds[-1][1])):
                 continue  # a type guard (None / wrong class), not a configuration rejection
             chk.require("C14.R2", f"{mi.rel}:{p.end[2]}", name == "ValueError", f"{qual}: rejection at line {p.end[2]} raises {name}", qual, f"rejection raises {name}", "the rejected configuration: callers catching ValueError do not see it")
     for n in ast.walk(fn):
